@@ -8,7 +8,8 @@
     it a recomputed quotient whose R | N | U components are those of the reported prediction (R2.centre);
  R3 clipping: every factor of errors_B_1..4, weighted_yz_test_pred and weighted_z_test_pred is clipped to the bounds that
     _generate_nonreporting_bounds gives for the matching quantity (margin with margin bounds, turnout factor with turnout
-    bounds) after the last unbounded update, then multiplied by the baseline weights; default naive bounds are +-1 and >= 0;
+    bounds) after the last unbounded update, then multiplied by the baseline weights; default naive bounds are +-1 and >= 0; the
+    turnout bounds themselves are quotients whose denominators stay positive (R3.bounds-feasible);
  R4 same draws for every level: the draw matrices and point predictions are written only by compute_bootstrap_errors, whose only
     call site is behind the run-once guard; the per-level functions neither write them nor draw random numbers.
 Not decided: 0 <= low rank <= high rank <= 1 for all (alpha, B >= 2) and numeric ranges - arithmetic over unbounded domains
@@ -69,6 +70,44 @@ def _bound_parts(t):
     if q is None or q[0] != "list" or len(q[1]) != 2:
         return None
     return x[2], qc[2][0], q[1], kw.get("axis"), t[2][1]
+
+
+def _bound_denominators(ctx, cls):
+    """R3.bounds-feasible: the turnout-factor bounds every draw is clipped to are  counted / (share in +- error)  - a turnout, so
+    they must be non-negative and finite.  `share + error` is a sum of non-negatives; `share - error` can be zero or NEGATIVE
+    (error bound above the share), so that denominator has to be bounded below by a positive literal (`.clip(min=c)`,
+    numpy.maximum(.., c)); otherwise a unit with counted votes gets a negative upper bound and, through the clipping of R3,
+    a negative predicted turnout."""
+    f = ctx.fn(BM, "BootstrapElectionModel._generate_nonreporting_bounds")
+    s = ctx.builder(inline=lambda *a: False).summarize(f, {"bootstrap_estimand": ("const", "turnout_factor")}, self_cls=cls)
+    r = s.ret()
+    ctx.require(r[0] == "tuple" and len(r[1]) == 2, f"{f.where()}: does not return (lower, upper)")
+    nden = 0
+    for side, t in zip(("lower", "upper"), r[1]):
+        for d in ir.walk(t):
+            if not (d[0] == "bin" and d[1] == "/") or d[3][0] == "const":
+                continue
+            den = d[3]
+            nden += 1
+            core = den
+            floor = None
+            if core[0] == "call" and core[1][0] == "attr" and core[1][2] == "clip":
+                kw = dict(core[3])
+                floor = kw.get("min", kw.get("lower", core[2][0] if core[2] else None))
+                core = core[1][1]
+            elif core[0] == "call" and core[1][0] == "global" and core[1][1].endswith("maximum") and len(core[2]) == 2:
+                c_ = [a for a in core[2] if a[0] == "const"]
+                floor = c_[0] if c_ else None
+                core = next(a for a in core[2] if a[0] != "const") if c_ else core
+            subtracts = any(x[0] == "bin" and x[1] == "-" for x in ir.walk(core))
+            pos_floor = floor is not None and floor[0] == "const" and isinstance(floor[1], (int, float)) and floor[1] > 0
+            ok = pos_floor or not subtracts
+            ctx.ob("C06.R3.bounds-feasible", f"{f.qualname}|{side} turnout bound: denominator stays positive", ok, f.where(),
+                   (f"denominator {ir.show(den, maxdepth=3)} is bounded below by {floor[1]}" if pos_floor
+                    else f"denominator {ir.show(den, maxdepth=3)} is a sum of non-negative terms") if ok
+                   else f"denominator {ir.show(den, maxdepth=3)} can be zero or negative (error bound above the share of the vote that is in): "
+                        f"the {side} turnout bound becomes negative / infinite and every draw of the unit is clipped to it")
+    ctx.sites("C06.R3.bounds-feasible", nden, 2, "denominators of the turnout-factor bounds")
 
 
 def _centre(ctx, cls):
@@ -166,6 +205,7 @@ def check(ctx):
                "lower and upper are quantiles of the same matrix of bootstrap differences" if okE else "lower and upper use different draw matrices")
 
     _centre(ctx, cls)
+    _bound_denominators(ctx, cls)
 
     # ---- quantile formulas as written in _get_quantiles --------------------------------------------------
     qf = ctx.fn(BM, "BootstrapElectionModel._get_quantiles")
